@@ -47,6 +47,7 @@ type running struct {
 func startRunning(r *ev.Run) (*running, error) {
 	cfgs := srv.NewConfigs(1, func(i int, c *config.Config) {
 		c.PDServerCfg.UseRegionStorage = false // everything lives in the etcd-backed kv the harness wraps
+		c.LeaderLease = 15                     // a starved process must not lose its leadership by itself
 	})
 	ctx, cancel := context.WithCancel(context.Background())
 	s, err := server.CreateServer(ctx, cfgs[0], api.NewHandler)
@@ -103,6 +104,39 @@ func (ru *running) waitLeader(needCluster bool) bool {
 		time.Sleep(10 * time.Millisecond)
 	}
 	return false
+}
+
+func (ru *running) ready() bool {
+	return !ru.s.IsClosed() && ru.s.GetMember().IsLeader() && ru.s.GetRaftCluster() != nil
+}
+
+// execUndisturbed executes st while this member is leader. A leader change that the harness did
+// not ask for (lease lost by a starved process) replaces the served configuration by the stored
+// one behind the request's back: such an execution is not judged (res == nil). ok=false: the
+// member did not become leader again.
+func (ru *running) execUndisturbed(st *step, mode kvx.FaultMode) (*result, bool) {
+	if !ru.ready() {
+		ru.r.Count("unplanned_leader_changes", 1)
+		if !ru.waitLeader(true) {
+			return nil, false
+		}
+	}
+	res := ru.exec(st, mode)
+	disturbed := !ru.ready()
+	for _, x := range res.log {
+		if x.Kind == "Load" && x.Key == configKey {
+			disturbed = true // reloadConfigFromKV ran during the request
+		}
+	}
+	if disturbed {
+		ru.r.Count("skipped_leader_change_during_request", 1)
+		ru.tainted = true
+		if !ru.waitLeader(true) {
+			return nil, false
+		}
+		return nil, true
+	}
+	return res, true
 }
 
 func (ru *running) httpStep(p *post) *step {
@@ -202,16 +236,20 @@ func (ru *running) runPhase(g *gen, rounds, steps int) {
 			if i == steps-1 {
 				mode = kvx.NoFault
 			}
-			res := ru.exec(st, mode)
+			res, ok := ru.execUndisturbed(st, mode)
+			if !ok {
+				r.Inconclusive("running phase: leader did not come back after an unplanned leader change (case %d)", ru.caseNo)
+				return
+			}
+			if res == nil {
+				continue
+			}
 			ru.judge(st, res)
 			if ru.caseNo%97 == 5 {
 				r.Sample(map[string]interface{}{"phase": ru.env.phase, "case": ru.caseNo, "request": st.Desc, "site": st.Site, "result": res})
 			}
 			ru.syncDefaultRule()
-			if rc := ru.s.GetRaftCluster(); rc == nil {
-				r.Inconclusive("running phase: raft cluster stopped at case %d", ru.caseNo)
-				return
-			} else if len(rc.GetSchedulers()) > 0 {
+			if rc := ru.s.GetRaftCluster(); rc != nil && len(rc.GetSchedulers()) > 0 {
 				r.Inconclusive("running phase: coordinator started and rewrites the schedule section on its own (harness assumption broken)")
 				return
 			}
@@ -281,7 +319,15 @@ func (ru *running) runPhase(g *gen, rounds, steps int) {
 	} {
 		ru.caseNo++
 		st := ru.httpStep(d.p)
-		res := ru.exec(st, d.mode)
+		res, ok := ru.execUndisturbed(st, d.mode)
+		if !ok {
+			r.Inconclusive("running phase: leader did not come back after an unplanned leader change (case %d)", ru.caseNo)
+			return
+		}
+		if res == nil {
+			r.Count("directed_http_requests_skipped", 1)
+			continue
+		}
 		ru.judge(st, res)
 		ru.syncDefaultRule()
 		r.Count("directed_http_requests", 1)
